@@ -102,6 +102,8 @@ type Schema struct {
 	// Defer: when >0 a query response function yields that many extra incremental payloads.
 	Incremental []string    // raw JSON data for incremental payloads (each delivered with hasNext bookkeeping)
 	IncHook     func(k int) // called before the k-th incremental payload is produced
+	// IncPaths, when set, gives the path of the k-th incremental payload (default ["a"])
+	IncPaths [][]string
 
 	schema *ast.Schema
 }
@@ -328,7 +330,14 @@ func (s *Schema) Exec(ctx context.Context) graphql.ResponseHandler {
 				}
 				s.log(ctx).Add("payload:%s", s.Incremental[k])
 				hn := k+1 < len(s.Incremental)
-				return &graphql.Response{Data: []byte(s.Incremental[k]), Path: ast.Path{ast.PathName("a")}, HasNext: &hn}
+				path := ast.Path{ast.PathName("a")}
+				if k < len(s.IncPaths) {
+					path = nil
+					for _, seg := range s.IncPaths[k] {
+						path = append(path, ast.PathName(seg))
+					}
+				}
+				return &graphql.Response{Data: []byte(s.Incremental[k]), Path: path, HasNext: &hn}
 			}
 			return nil
 		}
